@@ -10,6 +10,8 @@ M2 (spec->code)  : TLC generates the complete abstract case space (GrpcWireMC!Ca
                    `vdrive grpcwire` renders it into ammo files and runs every run on the real engine
                    with the providers and guns from the registered factories against a recording
                    TargetService with reflection.
+Connections       : GrpcConn.tla (warm-up / shared client pool / unreachable target / outage and recovery / late
+                   answers) + TraceGrpcConn.tla over the target's stats.Handler log (`vdrive grpcconn`).
 M1 (code->spec)  : TraceGrpcWire.tla follows every recorded line with the actions of GrpcWire
                    (a received call must Fit the current step of a gun in Shoot, one sample per step,
                    failed iff never sent, every grpc/json entry shot exactly once).
@@ -530,7 +532,8 @@ def run(tier, v):
             ("GrpcWireMC", "GrpcWire_neg_inplace.cfg", kw), ("GrpcWireMC", "GrpcWire_neg_abortonbad.cfg", kw),
             ("GrpcWireMC", "GrpcWire_neg_dropmd.cfg", kw)]
     more_neg = [("GrpcWireMC", "GrpcWire_neg_shareddialsreflect.cfg", kw), ("GrpcWireMC", "GrpcWire_neg_scenariodeadline.cfg", kw),
-                ("GrpcWireMC", "GrpcWire_neg_dirtyafterfail.cfg", kw), ("GrpcWireMC", "GrpcWire_neg_leakmd.cfg", kw)]
+                ("GrpcWireMC", "GrpcWire_neg_dirtyafterfail.cfg", kw), ("GrpcWireMC", "GrpcWire_neg_leakmd.cfg", kw),
+                ("GrpcWireMC", "GrpcWire_neg_keepdefaults.cfg", kw)]
     jobs += more_neg
     t0 = time.time()
     if thorough:   # files of 3 entries (2 instances) next to 3 instances (files of 2)
@@ -543,10 +546,10 @@ def run(tier, v):
         vlib.tlc_must_fail(r, j[1])
     vlib.log("design TLC + negative controls: %.1fs (%d + %d states)" % (time.time() - t0, res[0].distinct, cres[0].distinct))
     vlib.tlc_must_pass(res[0], jobs[0][1])
-    for j, r in zip(jobs[1:8], res[1:8]):
+    for j, r in zip(jobs[1:9], res[1:9]):
         vlib.tlc_must_fail(r, j[1])
     states, trans = res[0].distinct, res[0].generated
-    for j, r in zip(jobs[8:], res[8:]):
+    for j, r in zip(jobs[9:], res[9:]):
         vlib.tlc_must_pass(r, j[1])
         states += r.distinct
         trans += r.generated
@@ -582,7 +585,7 @@ def run(tier, v):
         "abstract_entries": len(ents), "bad_entries": sum(1 for e in ents if e["bad"] != "none"),
         "runs": len(doc["runs"]), "runs_rejected": rejected,
         "calls_received": recvs, "trace_lines": len(rows), "trace_spec_states": tstates,
-        "negative_controls": ["inplace", "abortonbad", "dropmd", "shareddialsreflect", "scenariodeadline", "dirtyafterfail", "leakmd"], "corrupted_traces_rejected": corrupted, "design_configs": [jobs[0][1]] + [j[1] for j in jobs[8:]],
+        "negative_controls": ["inplace", "abortonbad", "dropmd", "shareddialsreflect", "scenariodeadline", "dirtyafterfail", "leakmd", "keepdefaults"], "corrupted_traces_rejected": corrupted, "design_configs": [jobs[0][1]] + [j[1] for j in jobs[9:]],
     }
     cov.update(conn)
     return "model_checking", cov, [
@@ -590,8 +593,8 @@ def run(tier, v):
         "after an outage every client may reconnect once; 'the target comes back' is judged by calls arriving again within 60 s",
         "exhaustive TLC bounds: files of <= 2 entries over 4 grpc/json and 3 scenario classes, <= %d instances%s" % (
             3 if thorough else 2, "; files of <= 3 entries with <= 2 instances" if thorough else ""),
-        "values are compared as (constant prefix, token) pairs split at '~' by the recording target; non-default values only "
-        "(proto3 cannot distinguish a default from an absent field)",
+        "values are compared as (constant prefix, token) pairs split at '~' by the recording target; a field written with its default value "
+        "(\"\" / 0) must arrive as absent (proto3: the message equals the payload when exactly the non-default fields arrive)",
         "'within the configured timeout' is decided as 'per call': one run with timeout 1 s and 0.6 s + 0.6 s of think time between three fast "
         "calls (every step must reach the target and be 200); if a shot of that run took longer than think time + T/2 the machine is "
         "declared too slow (exit 2). Real-time length of the timeout itself is not measured",
